@@ -5,6 +5,7 @@
      gen_cf_extent       utils/cf._get_area_extent_from_cf_axis  half-pixel extent reconstruction
      gen_gdal_extent     utils/rasterio._get_area_def_from_gdal  geotransform -> extent (rasterio's .bounds is the same expression)
      gen_cartopy_bounds  geometry.AreaDefinition.to_cartopy_crs  bounds reordering
+     gen_geobox_affine   geometry.AreaDefinition.to_odc_geobox   Affine(psx, 0, extent[0], 0, -psy, extent[3])
    What is hand-written here is the plumbing around them (which element of a coordinate vector is read, the loop of
    _convert_XY_CF_to_Proj, the unit conversion of the two extent corners in create_area_def, the affine transform of
    an area, affine application).  External engines are arguments, never axioms:
@@ -90,8 +91,7 @@ Section Convert.
 
   (* ---------------------------------------------------------------- odc-geo *)
   (* to_odc_geobox: GeoBox(shape = (height, width), affine = Affine(psx, 0, extent[0], 0, -psy, extent[3])) *)
-  Definition geobox_affine (a : area T) : affine6 T :=
-    (pixel_size_x OP a, zero, xmin a, zero, neg OP (pixel_size_y OP a), ymax a).
+  Definition geobox_affine (a : area T) : affine6 T := gen_geobox_affine OP a.
   Definition geobox_shape (a : area T) : Z * Z := (height a, width a).
 
   (* ---------------------------------------------------------------- cartopy *)
